@@ -955,6 +955,9 @@ namespace awkward {
     size_t i = 0;
     for (;  i < others.size();  i++) {
       ContentPtr other = others[i];
+      while (VirtualArray* virt = dynamic_cast<VirtualArray*>(other.get())) {
+        other = virt->array();
+      }
       if (dynamic_cast<IndexedArray32*>(other.get())  ||
           dynamic_cast<IndexedArrayU32*>(other.get())  ||
           dynamic_cast<IndexedArray64*>(other.get())  ||
@@ -978,6 +981,9 @@ namespace awkward {
 
     for (;  i < others.size();  i++) {
       ContentPtr other = others[i];
+      while (VirtualArray* virt = dynamic_cast<VirtualArray*>(other.get())) {
+        other = virt->array();
+      }
       tail.push_back(other);
     }
 
